@@ -112,6 +112,10 @@ def run(ctx):
                         "lengths": [60], "data_seed": 300 + j, "rng_seed": 300 + j, "regimes": 2 + j % 2})
         cen += [{"N": 2, "W": 1 + j, "K": 2, "beta": 2.0, "lam": 0.11, "limit": 30, "m": 2, "biased": False, "eps": 0, "joint": False,
                  "lengths": [70], "data_seed": 330 + j, "rng_seed": 330 + j, "regimes": 2, "data_dtype": dt} for j, dt in enumerate(["int64", "float32"])]
+        # as many regimes as clusters and a large refill size: a cluster is starved by a relabelling in mid-run, refilled, and the
+        # run still converges with every cluster populated (seeds chosen so that this happens on the validated tree)
+        cen += [{"N": 3, "W": 1, "K": 5, "beta": 10.0, "lam": 0.11, "limit": 30, "m": 10, "biased": False, "eps": 0, "joint": False,
+                 "lengths": [300], "data_seed": 1700 + j, "rng_seed": 1700 + j, "regimes": 5} for j in ((11, 59) if not ctx.thorough else (11, 59, 23, 131))]
         runs = runs + e2e.cached_runs(ctx, cen, "c17")
         for r in runs:
             ctx.count("run")
@@ -127,7 +131,21 @@ def run(ctx):
             means = [c["stacked_data_mean"] for c in fin["clusters"]]
             member_means = [stacked[c["members"]].mean(axis=0) for c in fin["clusters"]]
             if not all(np.allclose(a, b, rtol=1e-9, atol=1e-9) for a, b in zip(means, member_means)):
-                continue   # stored means are not the member means (repopulation in the last round): outside the clause
+                # stored means that are not the member means are legitimate only when the LAST round began with a repopulation
+                # that moved points (the statistics were then fitted to the repopulated labelling and the relabelling went back):
+                # such a run is outside the clause.  In every other converged run the statistics of the last round were fitted to
+                # the returned labelling, so a stored mean that is not its cluster's mean makes the reported index wrong.
+                ph = [e for e in r["events"] if e["event"] == "phase"]
+                last_round = max(e["round"] for e in ph)
+                rep = [i for i, e in enumerate(ph) if e["round"] == last_round and e["phase"] == "repopulate"]
+                moved = bool(rep) and rep[0] > 0 and ph[rep[0]]["state"]["labels"] != ph[rep[0] - 1]["state"]["labels"]
+                if not moved:
+                    bad_k = [k for k, (a, b) in enumerate(zip(means, member_means)) if not np.allclose(a, b, rtol=1e-9, atol=1e-9)]
+                    d_true = ch_def_np(stacked, fin["labels"], cfg["K"])
+                    ctx.violation("monitor", "converged run (no points moved by repopulation in its last round): the stored mean of cluster %s is not the mean of its "
+                                  "windows, so the reported index %r is not the index of the returned clustering (definition: %r)" % (bad_k, r["result"]["chi"], d_true),
+                                  {"case": {"cfg": cfg}})
+                continue
             labels = fin["labels"]
             K = cfg["K"]
             got = r["result"]["chi"]
